@@ -2,7 +2,7 @@
 # Runs every witness under /verif/findings against /repo (executes rl4co: a development aid, NOT part of any registered check).
 # Expected: witnesses of fixed findings exit 0, witnesses of open findings exit 1.
 cd /repo
-OPEN="F9_ F11_ F17_ F20_ F22_ F31_ F32_ F33_ F40_ F41_ F44_ F47_"
+OPEN="F9_ F11_ F17_ F20_ F22_ F31_ F32_ F33_ F40_ F41_ F44_ F47_ F55_ F56_"
 for f in /verif/findings/F*.py; do
   b=$(basename $f)
   OMP_NUM_THREADS=2 timeout 900 /venv/bin/python $f > /tmp/witness_$b.log 2>&1; rc=$?
